@@ -58,17 +58,27 @@ def _alarm(signum, frame):
 
 
 class watchdog:
-    """Per-case wall-clock watchdog (a hang is a violation, not a crash of the checker)."""
+    """Wall-clock watchdog, re-entrant (a hang is a violation, not a crash of the checker).
+
+    Raises CaseTimeout (a BaseException, so that library code catching Exception cannot swallow it)."""
 
     def __init__(self, seconds: float):
         self.seconds = seconds
+        self.prev = 0.0
+        self.t0 = 0.0
 
     def __enter__(self):
         signal.signal(signal.SIGALRM, _alarm)
+        self.prev = signal.getitimer(signal.ITIMER_REAL)[0]
+        self.t0 = time.time()
         signal.setitimer(signal.ITIMER_REAL, self.seconds)
+        return self
 
     def __exit__(self, *a):
-        signal.setitimer(signal.ITIMER_REAL, 0)
+        if self.prev > 0:
+            signal.setitimer(signal.ITIMER_REAL, max(0.01, self.prev - (time.time() - self.t0)))
+        else:
+            signal.setitimer(signal.ITIMER_REAL, 0)
         return False
 
 
@@ -104,7 +114,7 @@ def _run_job(args):
 
 def _replay_file(pid: str, v: Violation) -> str:
     h = hashlib.sha1(json.dumps([v.kind, v.case], sort_keys=True, default=str).encode()).hexdigest()[:12]
-    d = os.path.join(VERIF, "replays")
+    d = os.environ.get("VERIF_REPLAY_DIR") or os.path.join(VERIF, "replays")
     os.makedirs(d, exist_ok=True)
     path = os.path.join(d, f"{pid}-{h}.json")
     with open(path, "w") as fh:
@@ -189,8 +199,9 @@ def run_check(mod, tier: str, seed: int) -> int:
         unknown.append(lst[0])  # one (the smallest) representative per cluster
 
     try:
-        os.makedirs(os.path.join(VERIF, "out"), exist_ok=True)
-        with open(os.path.join(VERIF, "out", f"{pid}-clusters.json"), "w") as fh:
+        outdir = os.environ.get("VERIF_OUT_DIR") or os.path.join(VERIF, "out")
+        os.makedirs(outdir, exist_ok=True)
+        with open(os.path.join(outdir, f"{pid}-clusters.json"), "w") as fh:
             json.dump({k: [v.to_json() for v in lst[:2]] for k, lst in clusters.items()}, fh, indent=1, default=str)
     except OSError:
         pass
@@ -221,7 +232,7 @@ def run_check(mod, tier: str, seed: int) -> int:
         lines.append(f"  kind={v.kind} cluster={v.cluster}")
         lines.append(f"  detail={v.detail[:600]}")
     for v in checker_errors:
-        lines.append(f"CHECKER-ERROR property={pid} {v.kind}: {v.detail[:800]} case={json.dumps(v.case, default=str)[:400]}")
+        lines.append(f"CHECKER-ERROR property={pid} {v.kind}: {v.detail[-900:]} case={json.dumps(v.case, default=str)[:400]}")
         rc = max(rc, 3)
 
     wall = time.time() - t0
